@@ -571,7 +571,9 @@ def crc_gate(eng: Engine, ctx: Ctx, rid: str) -> int:
     sa = eng.symeval(asm.qualname)
     calls = [e for e in sa.effects if e.kind == "call" and is_self_call(e.term, "parse")]
     n += 1
-    if len(calls) != 1:
+    if not calls and not eng.parse_in_assembler:
+        ctx.undecided(rid, asm.qualname, "parse call site", detail=eng.NOT_FOLLOWED, **eng.loc(asm, asm.node))
+    elif len(calls) != 1:
         ctx.bad(rid, asm.qualname, "parse call site", expected="one call of the static parser", found=f"{len(calls)}", **eng.loc(asm, asm.node))
     else:
         t = calls[0].term
@@ -755,7 +757,7 @@ def read_script(eng: Engine, ctx: Ctx, rid: str, gate: dict | None):
 
     for e in rets:
         for g, leaf in leaves(unguard(e.term), ()):
-            raw = leaf[1][0] if leaf[0] == "tuple" and len(leaf[1]) == 2 else None
+            raw = leaf[1][0] if leaf[0] == "tuple" and len(leaf[1]) == 2 else (leaf if not eng.parse_in_assembler else None)
             raws.append((raw, e))
     for raw, e in raws:
         segs = cat.to_cat(raw) if raw is not None else None
@@ -1043,6 +1045,9 @@ def read_returns(eng: Engine, ctx: Ctx, rid: str, model: ReaderModel | None = No
                             found=f"{flag} = {show(flv)[:30]}: the loop continues and the frame is discarded", **loc)
                 continue
             good = a == ("proj", call, 0) and b == ("proj", call, 1)
+            if not good and not eng.parse_in_assembler and a == call:
+                # the assembler returns the raw frame and `read` parses it: parsed = self.parse(<that raw frame>, ...) or None
+                good = all((is_const(lf) and lf[1] is None) or (lf[0] == "call" and is_self_call(lf, "parse") and lf[3][:1] == (call,)) for _, lf in leaves(b))
             ctx.check(good, rid, f.qualname, f"iteration end ({kind}) that can leave the loop" + (f" under {guard_text(g)[:60]}" if g else ""), expected="returned variables = (raw, parsed) of the frame assembler",
                       found=f"{names[0]} = {show(a)[:50]}, {names[1]} = {show(b)[:50]}", **loc)
     ctx.instance("iteration ends examined", len(ends), 5)
@@ -1167,6 +1172,9 @@ def assembler_result(eng: Engine, ctx: Ctx, rid: str, model: "ReaderModel | None
     pcalls = [e for e in se.effects if e.kind == "call" and is_self_call(e.term, "parse")]
     rets = [e for e in se.effects if e.kind == "return"]
     n = 0
+    if not eng.parse_in_assembler:
+        ctx.undecided(rid, f.qualname, "assembler result", detail=eng.NOT_FOLLOWED, **eng.loc(f, f.node))
+        return n
     for e in rets:
         n += 1
         t = e.term
